@@ -413,9 +413,18 @@ def r7_lent_arrays(ctx: Context, only: tuple[str, ...] | None = None) -> None:
     for a in [*HISTORY, "real_data"]:
         if a in save.params:
             param_seeds[(save.qualname, a)] = {f"history.{a}" if a != "real_data" else "real_data"}
+    # the freshly proposed batch on its way to the model: the user's model is the one callee that is *not* assumed to leave its argument alone
+    # (it receives a private copy today - np.repeat - and models that normalise / clip their parameter vector in place exist)
+    sim = prog.func("black_it.calibrator:Calibrator.simulate_model")
+    if len(sim.params) > 1:
+        param_seeds[(sim.qualname, sim.params[1])] = {"batch.params"}
     aa = AliasAnalysis(prog, param_seeds, attr_seeds).run()
     for q in aa.analysed:
         ctx.functions.add(q)
+    for name, roles in sorted(aa.external_receivers.items()):
+        if "batch.params" in roles and "model" in name and (only is None or "batch.params" in only):
+            ctx.fail("R7.lent-arrays", f"Calibrator.simulate_model:model-receives-batch:{name[:40]}", f"the user's model is called as `{name}` with (a view of) the proposed batch itself: a model that "
+                     "modifies its parameter vector in place changes the parameters that are then recorded (and the other ensemble members' input)", sim, sim.node)
     shown = {k: fd for k, fd in aa.findings.items() if only is None or k[0] in only}
     for (role, q, text), fd in sorted(shown.items()):
         ctx.fail("R7.lent-arrays", f"{q.split(':')[1]}:{role}:{text}", f"{fd.what} modifies recorded data ({role}) in place", fd.func, fd.node, fd.chain)
